@@ -444,10 +444,46 @@ DEPTHS = {
 }
 
 
+def fixed_histories():
+    """Attachment shapes that would make most prefixes of a free history ill-formed: a text
+    attachment whose chunks split one character (every chunk arrives before the final status)."""
+    u1 = ev(file_name="u", file_bytes=b"caf\xc3", mime_type="text/plain; charset=utf8")
+    u2 = ev(file_name="u", file_bytes=b"\xa9", mime_type="text/plain; charset=utf8", eof=True)
+    r1 = ev(file_name="reason", file_bytes=b"pourquoi \xc3", mime_type="text/plain; charset=utf8")
+    r2 = ev(file_name="reason", file_bytes=b"\xa9", mime_type="text/plain; charset=utf8", eof=True)
+    out = []
+    for final in FINAL:
+        if final == "exists":
+            continue
+        out.append([("startTestRun",), ("status", u1), ("status", u2), ("status", ev(test_status=final)), ("stopTestRun",)])
+        out.append([("startTestRun",), ("status", ev(test_status="inprogress")), ("status", u1), ("status", u2), ("stopTestRun",)])
+    out.append([("startTestRun",), ("status", r1), ("status", r2), ("status", ev(test_status="skip")), ("stopTestRun",)])
+    return out
+
+
+def run_fixed(res):
+    for consumer in ("StreamToDict", "StreamSummary", "StreamToExtendedDecorator"):
+        for hist in fixed_histories():
+            sysm = System(consumer)
+            impl, m = sysm.fresh()
+            done = []
+            for op in hist:
+                done.append(op)
+                problems = sysm.apply(impl, m, op, True)
+                res.evaluations += 1
+                res.transitions += 1
+                for clause, msg in problems:
+                    res.violation(sysm.fingerprint(clause, done, msg), "%s after history %r" % (msg, done), sysm.replay_data(done))
+                if problems:
+                    break
+            res.traces_validated += 1
+
+
 def run_main(tier, seed):
     from vt.explore.bfs import pbfs
 
     res = ShardResult()
+    run_fixed(res)
     for consumer in ("StreamToDict", "StreamSummary", "StreamToExtendedDecorator"):
         depth = DEPTHS[tier][consumer]
         pbfs(System(consumer), depth, res, label=consumer, sample_every=1999)
